@@ -15,14 +15,29 @@ import (
 	"path/filepath"
 )
 
-const repo = "/repo/luahelper-lsp"
+var repo = func() string {
+	if r := os.Getenv("VERIF_REPO"); r != "" {
+		return r + "/luahelper-lsp"
+	}
+	return "/repo/luahelper-lsp"
+}()
 var home = func() string {
 	if h := os.Getenv("VERIF_HOME"); h != "" {
 		return h
 	}
 	return "/verif"
 }()
-var out = home + "/.build/gen"
+var buildDir = func() string {
+	if os.Getenv("VERIF_REPO") != "" {
+		tag := os.Getenv("VERIF_ALT_TAG")
+		if tag == "" {
+			tag = "alt"
+		}
+		return home + "/.build/" + tag
+	}
+	return home + "/.build"
+}()
+var out = buildDir + "/gen"
 
 type overlay struct {
 	Replace map[string]string
@@ -86,5 +101,5 @@ func main() {
 	ov.Replace[filepath.Join(repo, "langserver/zz_verif_access.go")] = dst
 	dropTelemetry(ov)
 	jb, _ := json.MarshalIndent(ov, "", " ")
-	writeIfChanged(home+"/.build/overlay.json", jb)
+	writeIfChanged(buildDir+"/overlay.json", jb)
 }
